@@ -171,6 +171,65 @@ Theorem C01_src_check_no_links_with : forall s t p a, WF s -> hid_tid (hp s) -> 
   = if links_bad (hp s) t (p :: a) then Err else Ok tt.
 Proof. exact src_check_no_links_with_eq. Qed.
 
+(* ---- third tranche: a setter that WRITES the heap.  The setter of Task.parent - guards, the writes on both ends of
+   the hierarchy edge, _attach - translated from its current source text (gen/SrcGraph.v, the heap threaded through),
+   is the model's [set_parent] in every well-formed state: same outcome class and, when accepted, the same heap, as
+   lists of records.  Hence an accepted call of THE CODE AS WRITTEN leaves the graph well formed. *)
+From PJ Require Import Graph.SrcGraphEquiv3.
+
+Theorem C01_src_set_parent : forall s (t : obj) (p : option obj), WF s -> hid_tid (hp s) -> t < length (hp s) ->
+  (forall p', p = Some p' -> p' < length (hp s)) ->
+  src_set_parent (S (S (length (hp s)))) (wroots s) (hp s) t p = lift_set s (set_parent s t p).
+Proof. exact src_set_parent_eq. Qed.
+
+Theorem C01_src_set_parent_keeps_WF : forall s (t : obj) (p : option obj) h' u, WF s -> hid_tid (hp s) ->
+  t < length (hp s) -> hidden (get (hp s) t) = false -> (forall p', p = Some p' -> p' < length (hp s)) ->
+  src_set_parent (S (S (length (hp s)))) (wroots s) (hp s) t p = Ok (h', u) ->
+  WF (mkS h' (wroots s)).
+Proof. exact src_set_parent_WF. Qed.
+
+Theorem C01_src_set_parent_no_crash : forall s (t : obj) (p : option obj) k, WF s -> hid_tid (hp s) ->
+  t < length (hp s) -> (forall p', p = Some p' -> p' < length (hp s)) ->
+  src_set_parent (S (S (length (hp s)))) (wroots s) (hp s) t p <> Crash k.
+Proof. exact src_set_parent_no_crash. Qed.
+
+(* ---- fourth and fifth tranche: the other three setters.  `task.predecessors = vs`, `task.successors = vs` and
+   `task.children = vs`, translated from their current source text (guards, the three writing loops, _attach / _detach on
+   intermediate heaps), are the model's [set_links] / [set_children] in every well-formed state, so an accepted call of the
+   code as written - by public arguments - leaves the graph well formed.  With C01_src_set_parent: all four relation
+   setters of Task. *)
+From PJ Require Import Graph.SrcGraphEquiv4 Graph.SrcGraphEquiv5.
+
+Theorem C01_src_set_predecessors : forall s (t : obj) (vs : list (option obj)), WF s -> hid_tid (hp s) ->
+  (forall v, In (Some v) vs -> hidden (get (hp s) v) = false) ->
+  src_set_predecessors (S (S (length (hp s)))) (hp s) t vs = lift_set s (set_links true s t vs).
+Proof. exact src_set_predecessors_eq. Qed.
+
+Theorem C01_src_set_successors : forall s (t : obj) (vs : list (option obj)), WF s -> hid_tid (hp s) ->
+  (forall v, In (Some v) vs -> hidden (get (hp s) v) = false) ->
+  src_set_successors (S (S (length (hp s)))) (hp s) t vs = lift_set s (set_links false s t vs).
+Proof. exact src_set_successors_eq. Qed.
+
+Theorem C01_src_set_children : forall s (t : obj) (vs : list (option obj)), WF s -> hid_tid (hp s) ->
+  t < length (hp s) -> (forall v, In (Some v) vs -> v < length (hp s)) ->
+  src_set_children (S (S (length (hp s)))) (hp s) t vs = lift_set s (set_children s t vs).
+Proof. exact src_set_children_eq. Qed.
+
+Theorem C01_src_set_predecessors_keeps_WF : forall s (t : obj) (vs : list (option obj)) h' u, WF s -> hid_tid (hp s) ->
+  pub s t -> pubs s vs ->
+  src_set_predecessors (S (S (length (hp s)))) (hp s) t vs = Ok (h', u) -> WF (mkS h' (wroots s)).
+Proof. exact src_set_predecessors_WF. Qed.
+
+Theorem C01_src_set_successors_keeps_WF : forall s (t : obj) (vs : list (option obj)) h' u, WF s -> hid_tid (hp s) ->
+  pub s t -> pubs s vs ->
+  src_set_successors (S (S (length (hp s)))) (hp s) t vs = Ok (h', u) -> WF (mkS h' (wroots s)).
+Proof. exact src_set_successors_WF. Qed.
+
+Theorem C01_src_set_children_keeps_WF : forall s (t : obj) (vs : list (option obj)) h' u, WF s -> hid_tid (hp s) ->
+  t < length (hp s) -> pubs s vs ->
+  src_set_children (S (S (length (hp s)))) (hp s) t vs = Ok (h', u) -> WF (mkS h' (wroots s)).
+Proof. exact src_set_children_WF. Qed.
+
 Print Assumptions C01_step.
 Print Assumptions C01_step_shape.
 Print Assumptions C01_public_stays_public.
@@ -194,3 +253,12 @@ Print Assumptions C01_src_all_successors.
 Print Assumptions C01_src_parent.
 Print Assumptions C01_src_all_parents.
 Print Assumptions C01_src_check_no_links_with.
+Print Assumptions C01_src_set_parent.
+Print Assumptions C01_src_set_parent_keeps_WF.
+Print Assumptions C01_src_set_parent_no_crash.
+Print Assumptions C01_src_set_predecessors.
+Print Assumptions C01_src_set_successors.
+Print Assumptions C01_src_set_children.
+Print Assumptions C01_src_set_predecessors_keeps_WF.
+Print Assumptions C01_src_set_successors_keeps_WF.
+Print Assumptions C01_src_set_children_keeps_WF.
